@@ -47,6 +47,7 @@ type replica struct {
 	which  int
 	reload bool
 	gt     kyber.Point
+	gt2    kyber.Point // the previous pairing result; the operand of the in-place target-group calls
 }
 
 // reloadState replaces every pool value by the decoding of its own encoding.
@@ -79,7 +80,7 @@ func (r *replica) pair(p kyber.Point, s kyber.Scalar) {
 				o = o2
 			}
 		}
-		r.gt = r.su.Pair(p, o)
+		r.gt2, r.gt = r.gt, r.su.Pair(p, o)
 		return
 	}
 	o := r.su.G1().Point().Mul(s, nil)
@@ -89,7 +90,30 @@ func (r *replica) pair(p kyber.Point, s kyber.Scalar) {
 			o = o2
 		}
 	}
-	r.gt = r.su.Pair(o, p)
+	r.gt2, r.gt = r.gt, r.su.Pair(o, p)
+}
+
+// gtOp works IN PLACE on the last pairing result (an application that accumulates a product of
+// pairings does this). Seed C18i: one back-end handed out one shared object for every pairing
+// with an identity argument, so the accumulation changed what later identity pairings returned.
+func (r *replica) gtOp(which int, s kyber.Scalar) {
+	if r.gt == nil {
+		return
+	}
+	switch which {
+	case 0:
+		if r.gt2 != nil {
+			r.gt.Add(r.gt, r.gt2)
+		}
+	case 1:
+		if r.gt2 != nil {
+			r.gt.Sub(r.gt, r.gt2)
+		}
+	case 2:
+		r.gt.Neg(r.gt)
+	default:
+		r.gt.Mul(s, r.gt)
+	}
 }
 
 func (r *replica) point() kyber.Point {
@@ -289,7 +313,7 @@ func runProgram(t *core.Tape, info *core.RunInfo) *core.Violation {
 			info.Logf("step %d state %x", step, h.Sum(nil)[:12])
 		}
 		for _, r := range reps[1:] {
-			if (reps[0].gt == nil) != (r.gt == nil) || (r.gt != nil && !bytes.Equal(mb(reps[0].gt), mb(r.gt))) {
+			if (reps[0].gt == nil) != (r.gt == nil) || (r.gt != nil && !bytes.Equal(mb(reps[0].gt), mb(r.gt))) || !bytes.Equal(mbOrNil(reps[0].gt2), mbOrNil(r.gt2)) {
 				return viol("replicas-agree", "program/pairing-differs/"+family+"/"+reps[0].name+"-vs-"+r.name, "after step %d of [%s]: the pairing result is %x on %s and %x on %s", step, strings.Join(trace, "; "), head(mbOrNil(reps[0].gt)), reps[0].name, head(mbOrNil(r.gt)), r.name)
 			}
 			for i := 0; i < nP; i++ {
@@ -325,9 +349,14 @@ func runProgram(t *core.Tape, info *core.RunInfo) *core.Violation {
 				kind = 100
 			case 4:
 				kind = 101
+			case 5:
+				kind = 102
 			}
 		}
 		switch kind {
+		case 102:
+			w := t.Intn("prog.pair", 4)
+			desc, op = fmt.Sprintf("gt.%s(gt,..s%d)", []string{"Add", "Sub", "Neg", "Mul"}[w], sa), func(x *replica) { x.gtOp(w, x.scs[sa]) }
 		case 101:
 			// stored and loaded again: the live replica gets an affine, freshly decoded operand too
 			desc, op = fmt.Sprintf("p%d.Unmarshal(p%d.Marshal())", r, a), func(x *replica) {
